@@ -268,15 +268,16 @@ func runGw(c *ctx) error {
 		type forcedPush struct {
 			eui  []byte
 			sock int
+			bare bool // a header-only PUSH_DATA (12 octets, no JSON object at all)
 		}
 		var forced []forcedPush
 		for k := 0; k < nops || len(forced) > 0; k++ {
 			eui := euis[r.Intn(len(euis))]
 			sock := r.Intn(len(rig.socks))
 			op := r.Intn(12)
-			isForced := false
+			isForced, bare := false, false
 			if len(forced) > 0 {
-				eui, sock, op, isForced = forced[0].eui, forced[0].sock, 3, true
+				eui, sock, op, isForced, bare = forced[0].eui, forced[0].sock, 3, true, forced[0].bare
 				forced = forced[1:]
 			}
 			var e protocol.EUI
@@ -317,9 +318,9 @@ func runGw(c *ctx) error {
 				}
 				registered[string(eui)] = true
 				if strict {
-					forced = append(forced, forcedPush{eui, r.Intn(6)})
+					forced = append(forced, forcedPush{eui, r.Intn(6), false})
 					if len(rig.socks) > 6 {
-						forced = append(forced, forcedPush{eui, 6 + r.Intn(len(rig.socks)-6)})
+						forced = append(forced, forcedPush{eui, 6 + r.Intn(len(rig.socks)-6), false})
 					}
 				}
 				leanReqs = append(leanReqs, fmt.Sprintf("gw.reg %s %s %s", hx.H(eui), ip, b01(strict)))
@@ -375,7 +376,18 @@ func runGw(c *ctx) error {
 					if n > 0 {
 						rx = strings.Join(mparts, ";")
 					}
-					switch r.Intn(14) {
+					variant := r.Intn(14)
+					if bare {
+						variant = 3
+					} else if isForced {
+						variant = 13
+					}
+					if variant > 3 && n > 0 && r.Intn(3) == 0 {
+						// after a datagram that carried frames: a header-only PUSH_DATA of some gateway from some
+						// socket (nothing of the earlier datagram may be delivered again, under either identity)
+						forced = append(forced, forcedPush{euis[r.Intn(len(euis))], r.Intn(len(rig.socks)), true})
+					}
+					switch variant {
 					case 0:
 						js = js[:len(js)/2] // truncated JSON
 						rx = "nojson"
